@@ -43,25 +43,25 @@ static const opdesc OPS[] = {
 static const char *OVF_BR[] = {"bo", "bno", "ubo", "ubno"};
 
 /* ---------------- value grids ---------------- */
-static int64_t IV[64]; static int n_iv;
-static double FV[40]; static int n_fv; /* fp grid (as double; narrowed for f, widened for ld) */
+static int64_t IV[96]; static int n_iv;
+static double FV[48]; static int n_fv; /* fp grid (as double; narrowed for f, widened for ld) */
 static long double LDX[4]; /* extra long-double-only values */
+static void add_iv (int64_t v) { for (int j = 0; j < n_iv; j++) if (IV[j] == v) return; if (n_iv < 96) IV[n_iv++] = v; }
 static void build_grids (int thorough) {
-  static const int64_t q[] = {0, 1, -1, 2, 3, 31, 63, 0x7fffffffll, 0x80000000ll, 0xffffffffll, INT64_MIN, INT64_MAX, 0x100000000ll};
-  if (!thorough) { for (unsigned i = 0; i < sizeof q / sizeof q[0]; i++) IV[n_iv++] = q[i]; }
-  else {
-    static const int64_t t[] = {0, 1, -1, 2, -2, 3, 5, 31, 33, 63, 64, 65, INT32_MIN, INT32_MAX, INT64_MIN, INT64_MAX, 0x5555555555555555ll, (int64_t) 0xAAAAAAAAAAAAAAAAull, -7, 100};
-    for (unsigned i = 0; i < sizeof t / sizeof t[0]; i++) IV[n_iv++] = t[i];
-    static const int ks[] = {7, 8, 15, 16, 31, 32, 63};
-    for (int i = 0; i < 7; i++) { uint64_t p = 1ull << ks[i]; IV[n_iv++] = (int64_t) p; IV[n_iv++] = (int64_t) (p - 1); IV[n_iv++] = (int64_t) (p + 1); }
-    /* dedupe */
-    int m = 0; for (int i = 0; i < n_iv; i++) { int dup = 0; for (int j = 0; j < m; j++) if (IV[j] == IV[i]) dup = 1; if (!dup) IV[m++] = IV[i]; } n_iv = m;
+  static const int64_t t[] = {0, 1, -1, 2, -2, 3, 5, 31, 33, 63, 64, 65, INT32_MIN, INT32_MAX, INT64_MIN, INT64_MAX, 0x5555555555555555ll, (int64_t) 0xAAAAAAAAAAAAAAAAull, -7, 100};
+  for (unsigned i = 0; i < sizeof t / sizeof t[0]; i++) add_iv (t[i]);
+  static const int ks[] = {7, 8, 15, 16, 31, 32, 63}, kt[] = {4, 24, 30, 33, 47, 48, 62};
+  for (int i = 0; i < 7; i++) { uint64_t p = 1ull << ks[i]; add_iv ((int64_t) p); add_iv ((int64_t) (p - 1)); add_iv ((int64_t) (p + 1)); }
+  if (thorough) {
+    for (int i = 0; i < 7; i++) { uint64_t p = 1ull << kt[i]; add_iv ((int64_t) p); add_iv ((int64_t) (p - 1)); add_iv ((int64_t) (p + 1)); add_iv (-(int64_t) p); }
+    add_iv (-(1ll << 31) - 1); add_iv (-(1ll << 32)); add_iv (0x00000000ffffff80ll); add_iv ((int64_t) 0xffffffff7fffffffull); add_iv (0x0123456789abcdefll); add_iv (10); add_iv (-128); add_iv (-32768);
   }
   static const double fq[] = {0.0, -0.0, 1.0, -1.0, 0.5, 1.5, -2.5, 0.1, 3.0, 16777217.0, 9007199254740993.0, 9223372036854775808.0, -9223372036854775808.0, 18446744073709551616.0, 4294967296.0, 2147483648.0, -2147483649.0, 123456.789};
-  for (unsigned i = 0; i < sizeof fq / sizeof fq[0] && (thorough || i < 9); i++) FV[n_fv++] = fq[i];
+  for (unsigned i = 0; i < sizeof fq / sizeof fq[0]; i++) FV[n_fv++] = fq[i];
   FV[n_fv++] = INFINITY; FV[n_fv++] = -INFINITY; FV[n_fv++] = NAN;
   FV[n_fv++] = DBL_MAX; FV[n_fv++] = -DBL_MAX; FV[n_fv++] = DBL_MIN; FV[n_fv++] = 4.9406564584124654e-324; /* min denormal */
-  if (thorough) { FV[n_fv++] = FLT_MAX; FV[n_fv++] = FLT_MIN; FV[n_fv++] = 1.401298464324817e-45; FV[n_fv++] = -4.9406564584124654e-324; FV[n_fv++] = 16777215.0; FV[n_fv++] = 9007199254740991.0; }
+  FV[n_fv++] = FLT_MAX; FV[n_fv++] = FLT_MIN; FV[n_fv++] = 1.401298464324817e-45; FV[n_fv++] = -4.9406564584124654e-324; FV[n_fv++] = 16777215.0; FV[n_fv++] = 9007199254740991.0;
+  if (thorough) { FV[n_fv++] = -0.1; FV[n_fv++] = 9223372036854774784.0; FV[n_fv++] = -9223372036854777856.0; FV[n_fv++] = 0.49999999999999994; FV[n_fv++] = 1e300; FV[n_fv++] = 1e-300; FV[n_fv++] = 65536.5; FV[n_fv++] = -FLT_MAX; }
 }
 
 /* ---------------- shapes ---------------- */
@@ -108,7 +108,7 @@ static void build_cases (int thorough) {
         if (two) { c = b; c.p2 = P_IMM; c.v2 = v; add_case (c); }
       }
       /* both operands constant: directly and through moves (folded by GVN/CCP at -O2/-O3) */
-      if (two) { for (int v = 0; v < n1; v++) for (int w = 0; w < n1; w++) { tcase c = b; c.fold = 1; c.v1 = v; c.v2 = w; add_case (c); if (thorough) { c.fold = 0; c.p1 = c.p2 = P_IMM; add_case (c); } } }
+      if (two) { for (int v = 0; v < n1; v++) for (int w = 0; w < n1; w++) { tcase c = b; c.fold = 1; c.v1 = v; c.v2 = w; add_case (c); c.fold = 0; c.p1 = c.p2 = P_IMM; add_case (c); } }
       else for (int v = 0; v < n1; v++) { tcase c = b; c.fold = 1; c.v1 = v; add_case (c); }
     }
   }
